@@ -5,6 +5,7 @@ CONSTANTS Mech = "spec"
  Tags = {"ok", "stmt", "print", "err", "perr", "syntax", "complete_request", "is_complete_request", "kernel_info_request", "forged-key", "forged-sig", "forged-content"}
  TwoClients = TRUE
  Stores = {TRUE, FALSE}
+ Pipelining = TRUE
 INVARIANT ExactlyOneReplyPerValidRequest
 INVARIANT ReplyCorrelated
 INVARIANT AllSigned
